@@ -73,7 +73,7 @@ def evaluate(case):
     mode = case["mode"]
     res.label("mode:" + mode)
     anns = [((a, b), f'<a id="{k}">', "</a>") for k, (a, b) in enumerate(spans)]
-    out = call(annotate_citations, plain, anns, source_text=src, unbalanced_tags=mode)
+    out = call(annotate_citations, plain, iter(anns) if case.get("iter") else anns, source_text=src, unbalanced_tags=mode)
     if isinstance(out, Raised):
         res.v(f"raises[{mode}]:" + out.bucket(), f"{out!r} src={src!r} spans={spans}")
         return res
@@ -129,7 +129,7 @@ def _case(draw, mode):
         a = draw(st.integers(0, n))
         b = draw(st.integers(a, min(n, a + draw(st.sampled_from([12, 12, 12, 40])))))
         spans.append([a, b])
-    return {"tree": tree, "spans": spans, "mode": mode}
+    return {"tree": tree, "spans": spans, "mode": mode, "iter": draw(st.integers(0, 4)) == 0}
 
 
 def phases(tier):
